@@ -64,9 +64,17 @@ Definition ok0 : outp := mkO Ok None None None None.
 Definition ok_point (n : N) : outp := mkO Ok (Some n) None None None.
 Definition ok_ps (n : N) (s : option N) : outp := mkO Ok (Some n) s None None.
 
+(** what a validation request carries as counterparty signatures: all of them verify on the
+    rebuilt transactions; one of them (commitment or HTLC) does not; or the commitment signature
+    verifies and there are fewer HTLC signatures than HTLCs, all that are there verifying --
+    check_holder_tx_signatures indexes the list by HTLC number and the request dies there *)
+Inductive sigq := SGood | SBad | SShort.
+Definition sig_of_bool (b : bool) : sigq := if b then SGood else SBad.
+Coercion sig_of_bool : bool >-> sigq.
+
 Inductive op :=
 (* holder side *)
-| ValidateHolder (n : N) (c : content) (sig_ok pol_ok : bool)
+| ValidateHolder (n : N) (c : content) (sig_ok : sigq) (pol_ok : bool)
 | Revoke (n : N) (pay_ok : bool)   (* [pay_ok]: verdict of the node-wide payment check at revocation *)
 | Activate
 | GetPoint (n : N)
@@ -80,8 +88,8 @@ Inductive op :=
 | SignCp (n : N) (pt : point) (c : content) (pol_ok : bool)
 | ValidateRevocation (r : N) (pt_of_secret : point) (secret : N) (chains : bool)
 (* handler composites *)
-| HValidateOld (n : N) (c : content) (sig_ok pol_ok pay_ok : bool)   (* protocol < REVOKE: validate; revoke n *)
-| HValidateNew (n : N) (c : content) (sig_ok pol_ok : bool)   (* protocol >= REVOKE *)
+| HValidateOld (n : N) (c : content) (sig_ok : sigq) (pol_ok pay_ok : bool)   (* protocol < REVOKE: validate; revoke n *)
+| HValidateNew (n : N) (c : content) (sig_ok : sigq) (pol_ok : bool)   (* protocol >= REVOKE *)
 | HGetPointOld (n : N)              (* protocol < NO_SECRET: point n and secret n-2 *)
 | HRevoke (n : N) (pay_ok : bool)   (* RevokeCommitmentTx: revoke (n+1), reply needs a secret *)
 (* life cycle *)
@@ -165,7 +173,7 @@ Definition persist (e : estate) : chan := mkC e e.
 Definition keep (ch : chan) (e : estate) : chan := mkC e (disk ch).
 
 (** validate_holder_commitment_tx{,_phase2} *)
-Definition do_validate (ch : chan) (n : N) (c : content) (sig_ok pol_ok : bool) : chan * outp :=
+Definition do_validate (ch : chan) (n : N) (c : content) (sig_ok : sigq) (pol_ok : bool) : chan * outp :=
   let e := mem ch in
   if negb (point_ok e n) then (ch, refused)
   else if negb pol_ok then (ch, refused)
@@ -173,9 +181,13 @@ Definition do_validate (ch : chan) (n : N) (c : content) (sig_ok pol_ok : bool) 
        | None => (ch, aborted)
        | Some false => (ch, refused)
        | Some true =>
-           if negb sig_ok then (ch, refused)
-           else if n =? next_h e then (persist (set_nxt_h e (Some c)), ok0)
-           else (ch, ok0)       (* nothing changed: nothing is written *)
+           match sig_ok with
+           | SBad => (ch, refused)
+           | SShort => (ch, aborted)
+           | SGood =>
+               if n =? next_h e then (persist (set_nxt_h e (Some c)), ok0)
+               else (ch, ok0)       (* nothing changed: nothing is written *)
+           end
        end.
 
 (** revoke_previous_holder_commitment *)
